@@ -474,7 +474,12 @@ static int dispatch(HttpAsyncCtx *clientCtx) {
 				handle->state = KSI_ASYNC_STATE_ERROR;
 				handle->err = KSI_NETWORK_ERROR;
 				handle->errExt = curlMsg->data.result;
-				if (len) KSI_Utf8String_new(clientCtx->ctx, curlResponse->errMsg, len + 1, &handle->errMsg);
+				if (len) {
+					/* The request may have been failed with a message before its transfer completed. */
+					KSI_Utf8String_free(handle->errMsg);
+					handle->errMsg = NULL;
+					KSI_Utf8String_new(clientCtx->ctx, curlResponse->errMsg, len + 1, &handle->errMsg);
+				}
 			} else {
 				long httpCode = 0;
 
@@ -491,7 +496,12 @@ static int dispatch(HttpAsyncCtx *clientCtx) {
 					handle->state = KSI_ASYNC_STATE_ERROR;
 					handle->err = KSI_HTTP_ERROR;
 					handle->errExt = httpCode;
-					if (len) KSI_Utf8String_new(clientCtx->ctx, curlResponse->errMsg, len + 1, &handle->errMsg);
+					if (len) {
+						/* The request may have been failed with a message before its transfer completed. */
+						KSI_Utf8String_free(handle->errMsg);
+						handle->errMsg = NULL;
+						KSI_Utf8String_new(clientCtx->ctx, curlResponse->errMsg, len + 1, &handle->errMsg);
+					}
 				} else {
 					/* Process responses for all active clients. */
 					res = CurlAsyncRequest_processResponse(curlResponse);
